@@ -8,6 +8,7 @@ import shutil
 
 from .. import classify, drive, world
 
+TECHNIQUE = 'runtime monitoring: mutation injection at every depth, exit-code oracle for verify -dh, internal-error monitor'
 LEVEL = "exploration"
 RULE = (
     "case = sealed tree (flat folder without sub directories | deep | random, 0-2 nested histories sealed with other formats, "
